@@ -91,7 +91,25 @@
 //! * p4 `update-two-steps` (`update()` bumps the generation in one write-lock scope and stores the
 //!   expression in a second one) — VIOLATION after 13 cases, clause 5 (`snapshot_generation()` ahead of
 //!   the published updates); other seeds/cases hit clause 2 through the poisoned cache.
-//! PROBES-MORE
+//! * p3 `cache-shared-by-derived` (`with_new_children` re-uses the parent's `current_cache` instead of a
+//!   fresh one) — VIOLATION after 13 cases, clause 3 ("expression refers to column 2, expected 0").
+//! * p5 `complete-not-broadcast` (`mark_complete()` sets the flag but does not broadcast) — VIOLATION
+//!   after 9 cases, clause 6: logical deadlock, a `wait_complete()` waiter parked for ever.
+//! * p6 `stale-cache-hit` (cache hit on `cached_gen <= generation`) — VIOLATION after 13 cases, clause 2.
+//!
+//! **Finding on the unchanged tree** (recorded in `known_findings.json`, replay
+//! `regressions/C31/c31b/tracker-spurious-change-after-complete.json`, candidate repair
+//! `fixes/C31-watch-send-replace.diff`, verified with mutrun: check passes, finding no longer
+//! reproduces, label below drops to 0): `update()` / `mark_complete()` broadcast with
+//! `watch::Sender::send`, which *discards* the value while no receiver exists, so the watch state can lag
+//! behind `inner`. A `DynamicFilterTracker` that subscribes after such updates starts from a stale
+//! generation and reports `changed() == true` on the following `mark_complete()` although nothing
+//! changed (contradicts the tracker rustdoc and upstream's `mark_complete_does_not_count_as_a_change`).
+//! For C31 this is harmless (one spurious re-read), so the generated search only labels it
+//! (`tracker-spurious-change-on-complete (known finding)`); the strict contract is applied by the
+//! hand-written replay via `Case::strict_tracker` (never generated). By reading only (not reachable
+//! under H6): the same root cause leaves a lost-wake-up window in `wait_complete()` between its
+//! `is_complete` check and `subscribe()` under real threads.
 
 use arrow::array::{Array, ArrayRef, Int64Array, RecordBatch};
 use arrow::datatypes::{DataType, Field, Schema};
